@@ -15,6 +15,11 @@ Shapes (name n):  G   add_class_arguments(F, n)                      units: n
                   GI  add_class_arguments(F, n, instantiate=False)   no unit: never constructed; its link parameters are only
                       filled by the final pass of instantiate_classes and are read back from the returned cfg
                       (event ["cfg", n, [[i, value], ...]] at the end of the log)
+                  TI  add_argument(--n, type=Optional[Base])         no unit: a WHOLE class-typed argument that is a link target
+                      (link(src, "n")); given no value, required when a link targets it and the parser is not used before;
+                      the final pass type-checks the value and writes it to cfg[n] (event ["cfg", n, [[link id, value]]])
+With "sub": true the parser of the case is a SUBCOMMAND of an outer parser: parse_object / instantiate_classes are called on
+the outer parser and reach the links through the recursion of instantiate_classes into the chosen subcommand.
 A case may carry "uses": [k, ...]: after the k-th link_arguments call (1-based count of calls made) the parser is USED
 (parse_object + instantiate_classes, result discarded) before further links are added - link histories interleaved with use.
 With "cont": true the ValueError of a cycle-closing link is caught and the remaining links are still added: the history goes
@@ -33,13 +38,15 @@ NAMES = ["a", "b", "c", "d", "ab", "abc", "a_b", "ba"]
 NPAR = 8
 
 MODULE_HEAD = '''
-from typing import Any
+from typing import Any, Optional
 LOG = []
 UNIT = {}      # class name -> unit key
-class Attr:
+class Base:    # every scratch class, marker and compute_fn result is a Base: what a whole class-typed target accepts
+    pass
+class Attr(Base):
     def __init__(self, unit):
         self.unit = unit
-class FnRes:
+class FnRes(Base):
     def __init__(self, j, args):
         self.j, self.args = j, args
 def canon(v):
@@ -74,7 +81,7 @@ def make_fn(j):
 PARAMS_INT = ", ".join("l%d: int = -1" % i for i in range(NPAR))   # classes of class groups (no extra typehint actions)
 PARAMS_ANY = ", ".join("l%d: Any = -1" % i for i in range(NPAR))   # classes reached through a class-typed argument
 BODY = '''
-class {cls}:
+class {cls}(Base):
     def __init__(self, {sub}{params}):
         LOG.append(["new", UNIT["{cls}"], [[i, canon(v)] for i, v in enumerate([{plist}])]])
         self.at = Attr(UNIT["{cls}"])
@@ -109,16 +116,20 @@ def module_text():
     return "".join(out)
 
 
-def build_parser(mod, decls):
+def build_parser(mod, decls, required=()):
+    from typing import Optional
+
     from jsonargparse import ArgumentParser
 
     p = ArgumentParser(exit_on_error=False)
     cfg = {}
     M = mod.__name__
     for n, shape in decls:
-        c = getattr(mod, "%s_%s" % (n, shape))
+        c = getattr(mod, "%s_%s" % (n, shape), None)
         if shape == "GI":
             p.add_class_arguments(c, n, instantiate=False)
+        elif shape == "TI":
+            p.add_argument("--" + n, type=Optional[mod.Base], required=n in required)
         elif shape in ("G", "GN", "GNN"):
             p.add_class_arguments(c, n)
             if shape == "GN":
@@ -141,7 +152,15 @@ def build_parser(mod, decls):
 def run_case(mod, case):
     mod.LOG.clear()
     try:
-        p, cfg = build_parser(mod, case["decls"])
+        # a whole-argument target is declared required when a link will take it off the required list before any use
+        required = [] if case.get("uses") else [l["tgt"] for l in case["links"] if "." not in l["tgt"]]
+        p, cfg = build_parser(mod, case["decls"], required)
+        top = p
+        if case.get("sub"):      # the parser of the case is the subcommand "run" of an outer parser
+            from jsonargparse import ArgumentParser
+            top = ArgumentParser(exit_on_error=False)
+            top.add_subcommands().add_subcommand("run", p)
+            cfg = {"subcommand": "run", "run": cfg}
     except BaseException as e:  # noqa
         return {"outcome": "build:" + type(e).__name__, "log": []}
     rejected = []
@@ -159,17 +178,19 @@ def run_case(mod, case):
             return {"outcome": "link_exc:" + type(e).__name__, "at": k, "log": list(mod.LOG), "msg": str(e)[:160]}
         if k + 1 in case.get("uses", ()):
             try:   # use the parser in between; whatever it does must not influence what follows
-                p.instantiate_classes(p.parse_object(cfg))
+                top.instantiate_classes(top.parse_object(cfg))
             except BaseException:  # noqa
                 pass
             mod.LOG.clear()
     try:
-        ns = p.parse_object(cfg)
+        ns = top.parse_object(cfg)
     except BaseException as e:  # noqa
         return {"outcome": "parse:" + type(e).__name__, "log": list(mod.LOG), "msg": str(e)[:200], "rejected": rejected}
     pre = len(mod.LOG)
     try:
-        init = p.instantiate_classes(ns)
+        init = top.instantiate_classes(ns)
+        if case.get("sub"):
+            init = init["run"]
     except BaseException as e:  # noqa
         return {"outcome": "exc:" + type(e).__name__, "log": list(mod.LOG), "parse_events": pre, "msg": str(e)[:200],
                 "rejected": rejected}
@@ -181,6 +202,12 @@ def run_case(mod, case):
                 log.append(["cfg", n, [[i, mod.canon(g["l%d" % i])] for i in range(NPAR)]])
             except BaseException as e:  # noqa
                 log.append(["cfg", n, [[0, ["other", type(e).__name__]]]])
+        elif shape == "TI":
+            ids = [l["id"] for k, l in enumerate(case["links"]) if l["tgt"] == n and k not in rejected]
+            try:
+                log.append(["cfg", n, [[i, mod.canon(init[n])] for i in ids[:1]]])
+            except BaseException as e:  # noqa
+                log.append(["cfg", n, [[ids[0] if ids else 0, ["other", type(e).__name__]]]])
     return {"outcome": "ok", "log": log, "parse_events": pre, "rejected": rejected}
 
 
